@@ -26,29 +26,66 @@ def Core.wf (cls : Cls) (k : Core) : Prop := k.hdr.dtype ∈ cls.traits.codes
 def Img.wf (cls : Cls) (img : Img) : Prop := Core.wf cls img.core
 def Env.ok (cls : Cls) (env : Env) : Prop := ∀ a c, env.resolve a = some c → c ∈ cls.traits.codes
 
+/-- the image is harmonised: `update_header()` would not change its header (true after any successful
+    save, and of every image that has not been edited since it was built or loaded and harmonised) -/
+def Img.harmonised (img : Img) : Prop := img.core.pending = none
+
 theorem saveWorld_img (cls : Cls) (env : Env) (dt : DtReq) (fault : Fault) (k : Core)
     (hwf : Core.wf cls k) (henv : env.ok cls) :
-    (saveWorld cls env dt fault { img := k }).2.img = k := by
+    HarmOut (saveWorld cls env dt fault { img := k }) k := by
   cases cls <;> simp only [saveWorld]
-  · exact analyzeSave_img _ env dt fault _ (rtCode_id .analyze _ hwf)
-  · exact spmSave_img _ env dt fault _ (rtCode_id .spm99 _ hwf)
-  · exact spmSave_img _ env dt fault _ (rtCode_id .spm2 _ hwf)
+  · exact HarmOut.of_harm (analyzeSave_img _ env dt fault _ (rtCode_id .analyze _ hwf))
+  · exact HarmOut.of_harm (spmSave_img _ env dt fault _ (rtCode_id .spm99 _ hwf))
+  · exact HarmOut.of_harm (spmSave_img _ env dt fault _ (rtCode_id .spm2 _ hwf))
   · exact niftiSave_img _ env dt fault _ (rtCode_id .n1pair) hwf henv
   · exact niftiSave_img _ env dt fault _ (rtCode_id .n1single) hwf henv
   · exact niftiSave_img _ env dt fault _ (rtCode_id .n2pair) hwf henv
   · exact niftiSave_img _ env dt fault _ (rtCode_id .n2single) hwf henv
   · exact mghSave_img _ env dt fault _
-  · exact ciftiSave_img env dt fault _ (rtCode_id .n2single) hwf henv
+  · exact HarmOut.of_harm (ciftiSave_img env dt fault _ (rtCode_id .n2single) hwf henv)
 
-/-- **save_preserves_state**: for every class, state, fault point (none / any k / any byte budget), dtype
-    override, alias and external behaviour, the observable image (consumable header fields, dtype code,
-    alias, data, affine, header object) after `to_file_map` equals the one before — whether the save
-    succeeded or raised anything anywhere. -/
-theorem save_preserves_state (cls : Cls) (env : Env) (req : SaveReq) (img : Img)
+/-- **save_harmonises** (the general form, for images that may have been edited since they were last
+    harmonised — `img.affine[...] = …`, a header edit): for every class, state, data source (array, proxy,
+    memory map) and destination identity, fault point (none / any k / any byte budget), dtype override,
+    alias and external behaviour (writer raising WriterError, `set_slope_inter` raising HeaderDataError, …),
+    the image after `to_file_map` is either EXACTLY the one before or the one before with
+    `update_header()` applied — the latter whenever the save succeeds. Nothing else ever changes: consumable
+    header fields, dtype code, alias, data, affine, default_x_flip, data source, header object. -/
+theorem save_harmonises (cls : Cls) (env : Env) (req : SaveReq) (img : Img)
     (hwf : img.wf cls) (henv : env.ok cls) :
-    (save cls env req img).img.core = img.core := by
+    ((save cls env req img).img.core = img.core ∨ (save cls env req img).img.core = harmonise img.core) ∧
+    ((save cls env req img).err = none → (save cls env req img).img.core = harmonise img.core) := by
   unfold save finish
   exact saveWorld_img cls env req.dtype req.fault img.core hwf henv
+
+/-- `update_header()` changes the header at most once: a second application is the identity, and on a
+    harmonised image it is the identity -/
+theorem harmonise_once (k : Core) : harmonise (harmonise k) = harmonise k ∧ (harmonise k).pending = none ∧
+    (k.pending = none → harmonise k = k) :=
+  ⟨rfl, rfl, harmonise_of_none⟩
+
+/-- **save_preserves_state**: for every class, harmonised state, fault point (none / any k / any byte
+    budget), dtype override, alias and external behaviour, the observable image (consumable header fields,
+    dtype code, alias, data, affine, flip flag, header bytes, header object) after `to_file_map` equals the
+    one before — whether the save succeeded or raised anything anywhere. (The hypothesis `harmonised` was
+    an unstated modelling assumption before `update_header()` became a step of the model;
+    `save_harmonises` is the statement without it.) -/
+theorem save_preserves_state (cls : Cls) (env : Env) (req : SaveReq) (img : Img)
+    (hwf : img.wf cls) (henv : env.ok cls) (hh : img.harmonised) :
+    (save cls env req img).img.core = img.core := by
+  have h := (save_harmonises cls env req img hwf henv).1
+  rw [harmonise_of_none hh, or_self] at h
+  exact h
+
+/-- the first save after an edit harmonises, every later one changes nothing: state preservation relative to
+    the harmonised state -/
+theorem second_save_preserves (cls : Cls) (env1 env2 : Env) (req1 req2 : SaveReq) (img : Img)
+    (hwf : img.wf cls) (h1 : env1.ok cls) (h2 : env2.ok cls) (hok : (save cls env1 req1 img).err = none) :
+    (save cls env2 req2 (save cls env1 req1 img).img).img.core = (save cls env1 req1 img).img.core := by
+  have hc := (save_harmonises cls env1 req1 img hwf h1).2 hok
+  refine save_preserves_state cls env2 req2 _ ?_ h2 ?_
+  · unfold Img.wf Core.wf; rw [hc]; exact hwf
+  · unfold Img.harmonised; rw [hc]; rfl
 
 /-- a concrete faulted save satisfying the guards (non-vacuity): float data stored as int16 in a NIfTI-1
     single file with the alias `compat`, OSError at the 10th I/O call (the first data write) -/
@@ -61,13 +98,31 @@ def exImg : Img :=
     fileMap := 0 }
 def exReq (k : Nat) : SaveReq := { dtype := .none, fileMap := some 7, fault := .call k }
 
-example : exImg.wf .n1single ∧ exEnv.ok .n1single ∧ (save .n1single exEnv (exReq 10) exImg).err = some .os ∧
+example : exImg.wf .n1single ∧ exEnv.ok .n1single ∧ exImg.harmonised ∧
+    (save .n1single exEnv (exReq 10) exImg).err = some .os ∧
     (save .n1single exEnv (exReq 10) exImg).calls = 10 := by
-  refine ⟨by unfold Img.wf Core.wf; decide, ?_, by decide, by decide⟩
+  refine ⟨by unfold Img.wf Core.wf; decide, ?_, rfl, by decide, by decide⟩
   intro a c h; cases h; decide
 
+/-- an image whose affine was edited in place (pending header update 7): the first save — here one that
+    FAILS at its 10th I/O call — harmonises the header, a second one leaves everything alone -/
+def exEdited : Img := { exImg with core := { exImg.core with pending := some 7 } }
+example : (save .n1single exEnv (exReq 10) exEdited).err = some .os ∧
+    (save .n1single exEnv (exReq 10) exEdited).img.core = harmonise exEdited.core ∧
+    (save .n1single exEnv (exReq 10) exEdited).img.core ≠ exEdited.core ∧
+    (save .n1single exEnv ⟨.none, some 8, .none⟩ (save .n1single exEnv (exReq 10) exEdited).img).img.core
+      = harmonise exEdited.core := by decide
+
+/-- `set_slope_inter` raising HeaderDataError inside the `try:` (after the files were opened): the `finally`
+    still restores everything -/
+def exEnvSlopeBad : Env := { exEnv with slopeRaises := fun _ => true }
+example : (save .n1single exEnvSlopeBad ⟨.none, some 8, .none⟩ exImg).err = some .headerData ∧
+    (save .n1single exEnvSlopeBad ⟨.none, some 8, .none⟩ exImg).calls = 1 ∧
+    (save .n1single exEnvSlopeBad ⟨.none, some 8, .none⟩ exImg).img.core = exImg.core := by decide
+
 /-- the outcome of a save (error, I/O trace, abstract bytes, resulting image) depends on the image only
-    through its observable state — not on which file_map it is bound to -/
+    through its observable state — not on which file_map it is bound to. (Holds because `save` is a
+    function of `img.core`; it is what turns `save_harmonises` into `retry_correct` / `repeat_identical`.) -/
 theorem save_congr (cls : Cls) (env : Env) (req : SaveReq) (a b : Img) (h : a.core = b.core) :
     (save cls env req a).err = (save cls env req b).err ∧
     (save cls env req a).out = (save cls env req b).out ∧
@@ -77,7 +132,21 @@ theorem save_congr (cls : Cls) (env : Env) (req : SaveReq) (a b : Img) (h : a.co
   unfold save finish
   simp [h]
 
-/-- **retry_correct**: after ANY save attempt (any fault point, any override, any external behaviour —
+/-- a save cannot tell an image from its harmonised copy (it harmonises first): same result, bytes, I/O -/
+theorem save_congr_harm (cls : Cls) (env : Env) (req : SaveReq) (a b : Img) (h : a.core = harmonise b.core) :
+    (save cls env req a).err = (save cls env req b).err ∧
+    (save cls env req a).out = (save cls env req b).out ∧
+    (save cls env req a).log = (save cls env req b).log ∧
+    (save cls env req a).calls = (save cls env req b).calls := by
+  have hs := saveWorld_harm cls env req.dtype req.fault b.core
+  unfold save finish
+  simp only [h]
+  unfold Res.obs at hs
+  simp only [Prod.mk.injEq] at hs
+  exact ⟨hs.1, by rw [hs.2.1], by rw [hs.2.2.1], hs.2.2.2.1⟩
+
+/-- **retry_correct** (a corollary of `save_harmonises` + `save_congr`/`save_congr_harm`; no
+    `harmonised` hypothesis): after ANY save attempt (any fault point, any override, any external behaviour —
     failed or not), a following save behaves exactly as it would have on the untouched image: same
     result, same I/O calls, same bytes (as a function of the state they are computed from). In
     particular a healthy retry after a failure writes what a first healthy save writes. -/
@@ -88,8 +157,11 @@ theorem retry_correct (cls : Cls) (env1 env2 : Env) (req1 req2 : SaveReq) (img :
     (save cls env2 req2 img').out = (save cls env2 req2 img).out ∧
     (save cls env2 req2 img').log = (save cls env2 req2 img).log := by
   intro img'
-  have h := save_congr cls env2 req2 img' img (save_preserves_state cls env1 req1 img hwf henv)
-  exact ⟨h.1, h.2.1, h.2.2.1⟩
+  rcases (save_harmonises cls env1 req1 img hwf henv).1 with h | h
+  · have h := save_congr cls env2 req2 img' img h
+    exact ⟨h.1, h.2.1, h.2.2.1⟩
+  · have h := save_congr_harm cls env2 req2 img' img h
+    exact ⟨h.1, h.2.1, h.2.2.1⟩
 
 example : (save .n1single exEnv (exReq 10) exImg).err = some .os ∧
     (save .n1single exEnv ⟨.none, some 8, .none⟩ (save .n1single exEnv (exReq 10) exImg).img).err = none := by
@@ -101,23 +173,32 @@ def saves (cls : Cls) (env : Env) (req : SaveReq) : Nat → Img → Img
   | n + 1, img => saves cls env req n (save cls env req img).img
 
 theorem saves_core (cls : Cls) (env : Env) (req : SaveReq) (n : Nat) (img : Img)
-    (hwf : img.wf cls) (henv : env.ok cls) : (saves cls env req n img).core = img.core := by
+    (hwf : img.wf cls) (henv : env.ok cls) :
+    (saves cls env req n img).core = img.core ∨ (saves cls env req n img).core = harmonise img.core := by
   induction n generalizing img with
-  | zero => rfl
+  | zero => exact Or.inl rfl
   | succ n ih =>
-      have hp := save_preserves_state cls env req img hwf henv
       unfold saves
-      rw [ih _ (by unfold Img.wf; rw [hp]; exact hwf), hp]
+      rcases (save_harmonises cls env req img hwf henv).1 with hp | hp
+      · have := ih (save cls env req img).img (by unfold Img.wf; rw [hp]; exact hwf)
+        rw [hp] at this; exact this
+      · have := ih (save cls env req img).img (by unfold Img.wf; rw [hp]; exact hwf)
+        rw [hp, harmonise_idem, or_self] at this
+        exact Or.inr this
 
-/-- **repeat_identical**: for every n, the (n+1)-th save of an otherwise unchanged image gives the
+/-- **repeat_identical** (a corollary of `save_harmonises`, by induction on n; no `harmonised` hypothesis;
+    the compressed-file form with clock and file name is `repeat_identical_gz`): for every n, the (n+1)-th save of an otherwise unchanged image gives the
     same result, I/O trace and bytes as the first -/
 theorem repeat_identical (cls : Cls) (env : Env) (req : SaveReq) (n : Nat) (img : Img)
     (hwf : img.wf cls) (henv : env.ok cls) :
     (save cls env req (saves cls env req n img)).err = (save cls env req img).err ∧
     (save cls env req (saves cls env req n img)).out = (save cls env req img).out ∧
     (save cls env req (saves cls env req n img)).log = (save cls env req img).log := by
-  have h := save_congr cls env req _ img (saves_core cls env req n img hwf henv)
-  exact ⟨h.1, h.2.1, h.2.2.1⟩
+  rcases saves_core cls env req n img hwf henv with h | h
+  · have h := save_congr cls env req _ img h
+    exact ⟨h.1, h.2.1, h.2.2.1⟩
+  · have h := save_congr_harm cls env req _ img h
+    exact ⟨h.1, h.2.1, h.2.2.1⟩
 
 /-! ### the file_map binding -/
 
@@ -186,8 +267,17 @@ theorem setAliasOp_wf (cls : Cls) (a : Alias) (k : Core) (h : Core.wf cls k) :
   unfold setAliasOp Core.wf
   split <;> exact h
 
+theorem setDtypeOp_pending (cls : Cls) (c : Nat) (k : Core) : (setDtypeOp cls c k).2.pending = k.pending := by
+  unfold setDtypeOp
+  simp only []
+  split <;> split <;> rfl
+
+theorem setAliasOp_pending (cls : Cls) (a : Alias) (k : Core) : (setAliasOp cls a k).2.pending = k.pending := by
+  unfold setAliasOp
+  split <;> rfl
+
 theorem run_erase (cls : Cls) (ops : List Op) (a b : Img) (hc : a.core = b.core) (hwf : a.wf cls)
-    (hok : ∀ op ∈ ops, op.ok cls) :
+    (hh : a.harmonised) (hok : ∀ op ∈ ops, op.ok cls) :
     (run cls a ops).core = (run cls b (ops.filter fun op => !op.isSave)).core := by
   induction ops generalizing a b with
   | nil => exact hc
@@ -196,35 +286,60 @@ theorem run_erase (cls : Cls) (ops : List Op) (a b : Img) (hc : a.core = b.core)
       cases op with
       | save env req =>
           have henv : env.ok cls := hok (.save env req) (by simp)
-          have hp := save_preserves_state cls env req a hwf henv
+          have hp := save_preserves_state cls env req a hwf henv hh
           simp only [run, step, List.filter, Op.isSave, Bool.not_true]
-          exact ih _ b (by rw [hp, hc]) (by unfold Img.wf; rw [hp]; exact hwf) hok'
+          exact ih _ b (by rw [hp, hc]) (by unfold Img.wf; rw [hp]; exact hwf)
+            (by unfold Img.harmonised; rw [hp]; exact hh) hok'
       | setDtype c =>
           simp only [run, step, List.filter, Op.isSave, Bool.not_false]
-          exact ih _ _ (by simp [hc]) (setDtypeOp_wf cls c a.core hwf) hok'
+          exact ih _ _ (by simp [hc]) (setDtypeOp_wf cls c a.core hwf)
+            (by unfold Img.harmonised; simp only []; rw [setDtypeOp_pending]; exact hh) hok'
       | setAlias al =>
           simp only [run, step, List.filter, Op.isSave, Bool.not_false]
-          exact ih _ _ (by simp [hc]) (setAliasOp_wf cls al a.core hwf) hok'
+          exact ih _ _ (by simp [hc]) (setAliasOp_wf cls al a.core hwf)
+            (by unfold Img.harmonised; simp only []; rw [setAliasOp_pending]; exact hh) hok'
 
 /-- **saves_erasable**: in ANY history of saves (arbitrary faults, overrides, destinations, external
     behaviour) interleaved with `set_data_dtype` calls (dtypes or aliases), the final observable image is
     the one obtained by the `set_data_dtype` calls alone — every save is observationally a no-op. -/
-theorem saves_erasable (cls : Cls) (ops : List Op) (img : Img) (hwf : img.wf cls)
+theorem saves_erasable (cls : Cls) (ops : List Op) (img : Img) (hwf : img.wf cls) (hh : img.harmonised)
     (hok : ∀ op ∈ ops, op.ok cls) :
     (run cls img ops).core = (run cls img (ops.filter fun op => !op.isSave)).core :=
-  run_erase cls ops img img rfl hwf hok
+  run_erase cls ops img img rfl hwf hh hok
 
 /-- **histories_preserve**: any list of save requests leaves the observable image unchanged -/
 theorem histories_preserve (cls : Cls) (reqs : List (Env × SaveReq)) (img : Img) (hwf : img.wf cls)
-    (hok : ∀ r ∈ reqs, r.1.ok cls) :
+    (hh : img.harmonised) (hok : ∀ r ∈ reqs, r.1.ok cls) :
     (run cls img (reqs.map fun r => Op.save r.1 r.2)).core = img.core := by
-  have h := saves_erasable cls (reqs.map fun r => Op.save r.1 r.2) img hwf
+  have h := saves_erasable cls (reqs.map fun r => Op.save r.1 r.2) img hwf hh
     (by intro op hop; simp at hop; obtain ⟨e, r, hr, rfl⟩ := hop; exact hok (e, r) hr)
   rw [h]
   have : ((reqs.map fun r => Op.save r.1 r.2).filter fun op => !op.isSave) = [] := by
     simp only [List.filter_eq_nil_iff, List.mem_map]
     rintro a ⟨r, _, rfl⟩; simp [Op.isSave]
   rw [this]; rfl
+
+/-- **histories_harmonise**: any list of save requests on ANY image (edited or not) leaves it either
+    untouched or harmonised — nothing else -/
+theorem histories_harmonise (cls : Cls) (reqs : List (Env × SaveReq)) (img : Img) (hwf : img.wf cls)
+    (hok : ∀ r ∈ reqs, r.1.ok cls) :
+    (run cls img (reqs.map fun r => Op.save r.1 r.2)).core = img.core ∨
+    (run cls img (reqs.map fun r => Op.save r.1 r.2)).core = harmonise img.core := by
+  induction reqs generalizing img with
+  | nil => exact Or.inl rfl
+  | cons r rs ih =>
+      have hr : r.1.ok cls := hok r (by simp)
+      have hrs : ∀ r ∈ rs, r.1.ok cls := fun x hx => hok x (by simp [hx])
+      simp only [List.map, run, step]
+      rcases (save_harmonises cls r.1 r.2 img hwf hr).1 with hp | hp
+      · have := ih (save cls r.1 r.2 img).img (by unfold Img.wf; rw [hp]; exact hwf) hrs
+        rw [hp] at this; exact this
+      · have := ih (save cls r.1 r.2 img).img (by unfold Img.wf; rw [hp]; exact hwf) hrs
+        rw [hp, harmonise_idem, or_self] at this
+        exact Or.inr this
+
+example : (run .n1single exEdited [.save exEnv (exReq 3), .save exEnv ⟨.none, some 8, .none⟩]).core
+    = harmonise exEdited.core := by decide
 
 example : (run .n1single exImg [.save exEnv (exReq 3), .setDtype 4, .save exEnv (exReq 30), .setAlias .smallest,
     .save exEnv (exReq 6)]).core = (run .n1single exImg [.setDtype 4, .setAlias .smallest]).core := by decide
@@ -246,6 +361,118 @@ theorem orig_fault_leaves_slope_orig_counterexample :
 theorem orig_alias_changes_header_dtype_orig_counterexample :
     let o := saveOrig .n1single exEnv ⟨.none, some 1, .none⟩ exImg
     o.err = none ∧ o.img.core.alias = some .compat ∧ o.img.core.hdr.dtype = 4 ∧ exImg.core.hdr.dtype = 64 := by
+  decide
+
+
+/-! ### by-name saves, data sources -/
+
+/-- **byname_harmonises**: `img.to_filename(name)` (rebinding first, then `to_file_map()`) changes the
+    image no more than `to_file_map` does -/
+theorem byname_harmonises (cls : Cls) (env : Env) (req : SaveReq) (img : Img)
+    (hwf : img.wf cls) (henv : env.ok cls) :
+    ((saveByName cls env req img).img.core = img.core ∨ (saveByName cls env req img).img.core = harmonise img.core) ∧
+    ((saveByName cls env req img).err = none → (saveByName cls env req img).img.core = harmonise img.core) :=
+  save_harmonises cls env { req with fileMap := none } { img with fileMap := req.fileMap.getD img.fileMap } hwf henv
+
+/-- an image lazily loaded with a memory map (file identity 1), saved by name onto its own source -/
+def exMapped : Img := { exImg with core := { exImg.core with alias := none, src := .proxy 1 true } }
+def exEnvSelf : Env := { exEnv with owned := true, destImage := 1 }
+
+example : exMapped.wf .n1single ∧ (saveByName .n1single exEnvSelf ⟨.none, some 3, .none⟩ exMapped).err = none ∧
+    (saveByName .n1single exEnvSelf ⟨.none, some 3, .none⟩ exMapped).img.core.data = 1 := by
+  refine ⟨by unfold Img.wf Core.wf; decide, by decide, by decide⟩
+
+/-- the pinned logic (no copy of a memory-mapped volume before the destination is opened): saving a
+    memory-mapped image onto its own source file destroys the image's data (data id 0 = garbage) and writes
+    garbage; saving it anywhere else is fine -/
+theorem orig_self_overwrite_loses_data_orig_counterexample :
+    let o := saveOrig .n1single exEnvSelf ⟨.none, some 3, .none⟩ exMapped
+    o.err = none ∧ o.img.core.data = 0 ∧ exMapped.core.data = 1 ∧
+    (o.out.any fun c => match c with | .data _ d _ _ _ _ => d == 0 | _ => false) = true ∧
+    (saveOrig .n1single { exEnvSelf with destImage := 2 } ⟨.none, some 3, .none⟩ exMapped).img.core.data = 1 := by
+  decide
+
+/-! ### the SPM `.mat` file -/
+
+/-- **mat_roundtrip**: for EVERY integer affine and BOTH values of `default_x_flip` of the writer and of the
+    reader, the `.mat` file `to_file_map` writes (variables `M` and `mat`) is read back by `from_file_map` as
+    exactly the affine of the image -/
+theorem mat_roundtrip (a : M4) (flipW flipR : Bool) :
+    loadMat flipR (some (spmMat a)) (some (spmM flipW a)) = some a := by
+  simp only [loadMat, spmMat, from111_to111]
+
+/-- **mat_roundtrip_M_only**: a `.mat` file that only has `M` (as SPM itself wrote them) loads back to the
+    affine when reader and writer agree on `default_x_flip`; and `M` differs from `mat` exactly by the flip -/
+theorem mat_roundtrip_M_only (a : M4) (flip : Bool) :
+    loadMat flip none (some (spmM flip a)) = some a ∧
+    spmM flip a = (if flip then xflipM.mul (spmMat a) else spmMat a) := by
+  cases flip
+  · refine ⟨?_, rfl⟩
+    show some ((a.mul from111).mul to111) = some a
+    rw [from111_to111]
+  · refine ⟨?_, M4.mul_assoc _ _ _⟩
+    show some ((xflipR.mul ((xflipM.mul a).mul from111)).mul to111) = some a
+    rw [← M4.mul_assoc xflipR, xflip_xflip, from111_to111]
+
+example : loadMat false (some (spmMat exAff)) (some (spmM false exAff)) = some exAff ∧
+    spmM false exAff ≠ spmM true exAff ∧ loadMat true none (some (spmM false exAff)) ≠ some exAff := by decide
+
+/-- **spm_save_writes_mat**: every SPM99 / SPM2 save that completes — whatever history of saves, failed or
+    not, preceded it (by `save_harmonises` the affine and the flip flag are still the image's) — has written
+    a `.mat` file whose variables are `M = [flip] · affine · from_111` and `mat = affine · from_111`, computed
+    from the image's affine and its header's `default_x_flip`; and (`mat_roundtrip`) that file loads back to
+    exactly the image's affine under either reader convention -/
+theorem spm_save_writes_mat (cls : Cls) (hc : cls = .spm99 ∨ cls = .spm2) (env : Env) (req : SaveReq) (img : Img)
+    (a : M4) (hwf : img.wf cls) (ha : img.core.affine = some a) (hok : (save cls env req img).err = none) :
+    Chunk.mat (spmM img.core.xflip a) (spmMat a) ∈ (save cls env req img).out ∧
+    ∀ flipR, loadMat flipR (some (spmMat a)) (some (spmM img.core.xflip a)) = img.core.affine := by
+  refine ⟨?_, fun flipR => by rw [ha]; exact mat_roundtrip a _ flipR⟩
+  unfold save finish at hok ⊢
+  simp only [List.mem_reverse] at hok ⊢
+  rcases hc with rfl | rfl
+  · exact spmSave_mat _ env req.dtype req.fault { img := img.core } a (rtCode_id .spm99 _ hwf) ha hok
+  · exact spmSave_mat _ env req.dtype req.fault { img := img.core } a (rtCode_id .spm2 _ hwf) ha hok
+
+def exSpm : Img :=
+  { core := { hdr := ⟨0, 4, none, none⟩, alias := none, data := 1, affine := some exAff, xflip := false, hdrObj := 0 },
+    fileMap := 0 }
+example : exSpm.wf .spm99 ∧ (save .spm99 exEnv ⟨.none, some 1, .none⟩ exSpm).err = none ∧
+    Chunk.mat (spmM false exAff) (spmMat exAff) ∈ (save .spm99 exEnv ⟨.none, some 1, .none⟩ exSpm).out := by
+  refine ⟨by unfold Img.wf Core.wf; decide, by decide, by decide⟩
+
+/-! ### gzip destinations -/
+
+/-- **nib_gzip_independent**: the gzip stream nibabel produces (`DeterministicGzipFile`: `filename=''`,
+    `mtime=0`) for given data and level is the same whatever the wall clock reads and whatever the path of
+    the destination is — for every deflate / CRC function -/
+theorem nib_gzip_independent (deflate : Nat → List Nat → List Nat) (crc : List Nat → Nat)
+    (path path' : List Nat) (clock clock' level : Nat) (data : List Nat) :
+    gzStream deflate crc (nibSink path level) clock data = gzStream deflate crc (nibSink path' level) clock' data := by
+  rfl
+
+/-- **repeat_identical_gz**: the (n+1)-th save of an otherwise unchanged image, made at ANOTHER time under
+    ANOTHER file name through nibabel's gzip sink, produces the byte-identical compressed stream — for every
+    serialisation `enc` of the abstract output, deflate and CRC function -/
+theorem repeat_identical_gz (cls : Cls) (env : Env) (req : SaveReq) (n : Nat) (img : Img)
+    (hwf : img.wf cls) (henv : env.ok cls)
+    (enc : List Chunk → List Nat) (deflate : Nat → List Nat → List Nat) (crc : List Nat → Nat)
+    (path path' : List Nat) (clock clock' level : Nat) :
+    gzStream deflate crc (nibSink path' level) clock' (enc (save cls env req (saves cls env req n img)).out) =
+    gzStream deflate crc (nibSink path level) clock (enc (save cls env req img).out) := by
+  rw [(repeat_identical cls env req n img hwf henv).2.1]
+  rfl
+
+/-- a sink that embeds the clock or the file name (plain `gzip.GzipFile(path, 'wb')`, what nibabel does NOT
+    use): the same data written a second later, or under another name, give different bytes -/
+theorem plain_gzip_embeds_clock_counterexample :
+    let deflate : Nat → List Nat → List Nat := fun _ d => d
+    let crc : List Nat → Nat := fun d => d.sum
+    gzStream deflate crc (plainSink [97, 46, 103, 122] 9) 1000 [1, 2, 3] ≠
+      gzStream deflate crc (plainSink [97, 46, 103, 122] 9) 1001 [1, 2, 3] ∧
+    gzStream deflate crc (plainSink [97, 46, 103, 122] 9) 1000 [1, 2, 3] ≠
+      gzStream deflate crc (plainSink [98, 46, 103, 122] 9) 1000 [1, 2, 3] ∧
+    gzHeader (plainSink [47, 116, 47, 97, 46, 103, 122] 9) 1000 = [31, 139, 8, 8, 232, 3, 0, 0, 2, 255, 97, 0] ∧
+    gzHeader (nibSink [47, 116, 47, 97, 46, 103, 122] 9) 1000 = [31, 139, 8, 0, 0, 0, 0, 0, 2, 255] := by
   decide
 
 end Nb.C07
